@@ -729,7 +729,13 @@ enum SItem<'g> {
 type BoxStream<'g> = Pin<Box<dyn Stream<Item = SItem<'g>> + 'g>>;
 
 fn make_stream<'g>(g: &'g FnGraph<Fun>, cfg: &StreamCfg, rx: Option<Rx>) -> BoxStream<'g> {
-    if cfg.int {
+    if cfg.int && !cfg.rev && cfg.strat == Strat::Non {
+        // `stream_interruptible()` = `stream_with_interruptible(StreamOpts::default())`
+        Box::pin(g.stream_interruptible().map(|po| match po {
+            PollOutcome::NoInterrupt(r) => SItem::Yield(r),
+            PollOutcome::Interrupted(o) => SItem::Interrupted(o),
+        }))
+    } else if cfg.int {
         Box::pin(
             g.stream_with_interruptible(make_opts(cfg.rev, cfg.strat, true, rx))
                 .map(|po| match po {
